@@ -16,6 +16,7 @@ import Golib.Proof.C07Embedded
 import Golib.Proof.C07Shape
 import Golib.Proof.C07Multi
 import Golib.Proof.C07Fast
+import Golib.Proof.C07InPlace
 
 namespace Golib.C07
 
@@ -53,6 +54,33 @@ theorem c07_fast_eq_model (src : Bytes) :
 /-- Non-vacuity: the fast evaluator on a pair followed by a truncated escape. -/
 example : parseFast utf16DecQ [92, 117, 68, 56, 51, 68, 92, 117, 68, 69, 48, 48, 92, 117, 48] =
     [240, 159, 152, 128, 92, 117, 48] := by decide
+
+/-- Parsing IN PLACE yields the same bytes as parsing into a fresh buffer.  `runIP dec k mem`
+(Model/C07InPlace.lean) is the parser on ONE memory: `dst = mem[0:]`, `src = mem[k:]` — `k = 0`
+is `XxxParse(b, b)` as in the library's own `TestOctalParse`, `k > 0` a destination that starts
+`k` bytes before the source in the same array — with the Go cursors `e f i` and, per
+iteration, the memory operations of the loop body in their order (memmove of the pending
+literal run, then the decoded bytes).  For every codec, every `src`, every content `pad` of the
+`k` bytes in front: the machine returns `(n, dst[:n])` with `dst[:n] = XxxParseToString(src)`
+`= ` the prefix returned by `XxxParse(dst', src)` for any separate `dst'` with
+`len(dst') ≥ len(src)`.  (The invariant is `e ≤ k + f`, `f ≤ i`: the write cursor never
+reaches an unread source byte.) -/
+theorem c07_inplace_eq (c : Codec) (pad src : Bytes) :
+    ∃ out, parseToString c.body src = .ok out ∧
+      runIP c.dec pad.length (pad ++ src) = (out.length, out) ∧
+      ∀ dst : Bytes, src.length ≤ dst.length →
+        ∃ n dst', parse c.body dst src = .ok (n, dst') ∧ dst'.take n = out ∧ n = out.length := by
+  refine ⟨parseFun c.dec src, parseToString_eq c.bodySpec src,
+    runIP_eq (decOk_of_bodySpec c.bodySpec) pad src, fun dst h => ?_⟩
+  obtain ⟨e, dst', hp, hl, he, ht⟩ := run_spec (body := c.body) h (c.bodySpec src _)
+  refine ⟨e, dst', hp, ht, ?_⟩
+  rw [← ht, List.length_take]; omega
+
+/-- Non-vacuity: `\x41hello\x42` in place is `AhelloB` (7 bytes), also with 3 bytes in front. -/
+example : runIP hexDec 0 [92, 120, 52, 49, 104, 101, 108, 108, 111, 92, 120, 52, 50] =
+    (7, [65, 104, 101, 108, 108, 111, 66]) := by decide
+example : runIP hexDec 3 ([1, 2, 3] ++ [92, 120, 52, 49, 104, 101, 108, 108, 111, 92, 120, 52, 50]) =
+    (7, [65, 104, 101, 108, 108, 111, 66]) := by decide
 
 /-- No Parse function panics, for any input whatsoever (`[]byte` form with a destination at
 least as long as the source, and the `ToString` form). -/
